@@ -3,3 +3,4 @@
 import PahoProofs.Properties.C03
 import PahoProofs.Properties.FnSession
 import PahoProofs.Properties.SessionOrder
+import PahoProofs.Properties.FnLoopRc
